@@ -37,6 +37,7 @@ pub struct ExecOut {
     pub trace: String,
     pub window: String,
     pub budget: usize,
+    pub layout: (usize, usize),
 }
 
 pub fn run_exec<C: CellType>(exec: &dyn Executable<C>, env: &EnvSpec, mode: &Mode) -> ExecOut {
@@ -63,12 +64,14 @@ pub fn run_exec<C: CellType>(exec: &dyn Executable<C>, env: &EnvSpec, mode: &Mod
         .collect::<Vec<_>>()
         .join(",");
     let budget = cxt.budget;
+    let layout = cxt.memory.verif_layout();
     drop(cxt);
     ExecOut {
         tag,
         trace: encode_trace(&log),
         window,
         budget,
+        layout,
     }
 }
 
@@ -382,6 +385,7 @@ pub fn replay(lines: &[String], out: &mut Out) {
                 with_width!(w, irrun_case, w, &code, &env, budget, out);
             }
             "bcrun" => out.case(line, &exec_bcrun(&t)),
+            "jitgen" => out.case(line, &exec_jitgen(&t)),
             "divchk" => {
                 out.mark(line);
                 let r = exec_divchk(&t);
@@ -495,7 +499,8 @@ fn bcrun_exec<C: CellType>(t: &[&str]) -> String {
     };
     let exec = BcInterpreter::<C>::verif_from_bc(prog);
     let r = run_exec::<C>(&exec, &env, &if lim { Mode::Limited(budget) } else { Mode::Unlimited });
-    format!("{} {} {} b{}", r.tag, r.trace, if win { r.window } else { "-".to_string() }, r.budget)
+    let lay = if win { format!(" @{}/{}", r.layout.0, r.layout.1 as isize) } else { String::new() };
+    format!("{} {} {} b{}{}", r.tag, r.trace, if win { r.window } else { "-".to_string() }, r.budget, lay)
 }
 
 pub fn exec_bcrun(t: &[&str]) -> String {
@@ -792,4 +797,332 @@ pub fn roam(r: &mut Rng, count: usize, out: &mut Out) {
         let w = *r.pick(&WIDTHS);
         with_width!(w, e2e_case, w, &code, &env, out);
     }
+}
+
+// ---------------------------------------------------------------------------------------- unsafe
+
+/// Pointer excursion [lo, hi] of the canonical run (reference interpreter used only to size the
+/// pre-allocated region; `None` if the program does not finish within the step bound).
+fn excursion(code: &[u8], input: &[u8], bits: u32, max_steps: usize) -> Option<(i64, i64)> {
+    let mask: u64 = if bits == 64 { u64::MAX } else { (1u64 << bits) - 1 };
+    let mut tape: std::collections::HashMap<i64, u64> = Default::default();
+    let (mut p, mut lo, mut hi) = (0i64, 0i64, 0i64);
+    let mut jmp = vec![0usize; code.len()];
+    let mut st = vec![];
+    for (i, &c) in code.iter().enumerate() {
+        if c == b'[' {
+            st.push(i)
+        } else if c == b']' {
+            let j = st.pop()?;
+            jmp[i] = j;
+            jmp[j] = i;
+        }
+    }
+    let (mut pc, mut ip, mut steps) = (0usize, 0usize, 0usize);
+    while pc < code.len() {
+        steps += 1;
+        if steps > max_steps {
+            return None;
+        }
+        match code[pc] {
+            b'+' => { let v = tape.entry(p).or_insert(0); *v = v.wrapping_add(1) & mask; }
+            b'-' => { let v = tape.entry(p).or_insert(0); *v = v.wrapping_sub(1) & mask; }
+            b'>' => { p += 1; hi = hi.max(p); }
+            b'<' => { p -= 1; lo = lo.min(p); }
+            b',' => { let b = if ip < input.len() { ip += 1; input[ip - 1] } else { 0 }; tape.insert(p, b as u64); }
+            b'[' => { if *tape.get(&p).unwrap_or(&0) == 0 { pc = jmp[pc]; } }
+            b']' => { if *tape.get(&p).unwrap_or(&0) != 0 { pc = jmp[pc]; } }
+            _ => {}
+        }
+        pc += 1;
+    }
+    Some((lo, hi))
+}
+
+fn unsafe_case<C: CellType>(w: u32, code: &str, input: &[u8], out: &mut Out) {
+    let (lo, hi) = match excursion(code.as_bytes(), input, w, 400_000) {
+        Some(x) => x,
+        None => {
+            out.stat("skipped_long");
+            return;
+        }
+    };
+    let env = EnvSpec::plain(input);
+    let margin = code.len() as isize + 1;
+    let mut results: Vec<(String, String)> = Vec::new();
+    for &lvl in &[0u32, 1, 2, 3] {
+        macro_rules! backend {
+            ($name:expr, $ty:ident) => {{
+                let exec = $ty::<C>::create(code, lvl).unwrap();
+                let (i, o, log) = make_io(&env, false);
+                let mut cxt = Context::<C>::new(i, o);
+                // the pre-allocated region: pointer excursion plus the program's length on each side
+                cxt.memory.make_accessible(lo as isize - margin, hi as isize + margin + 1);
+                out.mark(&format!("unsafe {} O{lvl} w={w} region=[{},{}] code={code:?}", $name, lo as isize - margin, hi as isize + margin));
+                let before = cxt.memory.verif_layout().0;
+                let _ = unsafe { exec.execute_unsafe(&mut cxt) };
+                let grew = cxt.memory.verif_layout().0 != before;
+                drop(cxt);
+                results.push((format!("{}/O{lvl}", $name), format!("ok {}{}", encode_trace(&log), if grew { " GREW" } else { "" })));
+            }};
+        }
+        backend!("bcint", BcInterpreter);
+        backend!("basejit", BaseJitCompiler);
+    }
+    let first = results[0].1.clone();
+    let imp = if results.iter().all(|(_, r)| *r == first) {
+        first
+    } else {
+        let dis: Vec<String> = results.iter().filter(|(_, r)| *r != first).map(|(n, r)| format!("{n}=[{r}]")).collect();
+        format!("{first} DISAGREE {}", dis.join(" "))
+    };
+    out.case(&format!("bftrace {w} 3000000 {} {}", env.encode(), hex(code.as_bytes())), &imp);
+    out.stat("compared");
+}
+
+/// Unchecked execution (`execute_unsafe`) inside a pre-allocated region = canonical events. Meant to be
+/// run under the guard-page allocator (`guard` binary) so that any access outside the region faults.
+pub fn unsafe_mode(r: &mut Rng, count: usize, out: &mut Out) {
+    for i in 0..count {
+        let code = if i % 3 == 0 { gen::roaming(r) } else { random_program(r, out) };
+        let input = gen::input_bytes(r);
+        let w = *r.pick(&WIDTHS);
+        with_width!(w, unsafe_case, w, &code, &input, out);
+    }
+}
+
+// ------------------------------------------------------------------------------------------- c13
+
+fn fnv(data: &[u8]) -> u64 {
+    let mut h: u64 = 0xcbf29ce484222325;
+    for &b in data {
+        h ^= b as u64;
+        h = h.wrapping_mul(0x100000001b3);
+    }
+    h
+}
+
+/// Machine code with the absolute addresses of the runtime shims masked (`mov rax, imm64; call rax`):
+/// they depend on where the process is loaded, not on the program.
+fn mask_mc(mut mc: Vec<u8>) -> Vec<u8> {
+    let mut i = 0;
+    while i + 12 <= mc.len() {
+        if mc[i] == 0x48 && mc[i + 1] == 0xb8 && mc[i + 10] == 0xff && mc[i + 11] == 0xd0 {
+            for b in &mut mc[i + 2..i + 10] {
+                *b = 0;
+            }
+            i += 12;
+        } else {
+            i += 1;
+        }
+    }
+    mc
+}
+
+fn c13_case<C: CellType>(w: u32, code: &str, env: &EnvSpec, run_it: bool, out: &mut Out) {
+    let mut problems: Vec<String> = Vec::new();
+    let mut hashes: Vec<String> = Vec::new();
+    for &lvl in &[0u32, 1, 2, 3] {
+        let code_owned = code.to_string();
+        let res = std::panic::catch_unwind(move || {
+            let code = code_owned.as_str();
+            let mut v: Vec<String> = Vec::new();
+            for round in 0..2 {
+                let ir = ir::Program::<C>::parse(code).unwrap().optimize(lvl);
+                let bc = hpbf::bc::CodeGen::translate(&ir, 2, true);
+                let bcj = hpbf::bc::CodeGen::translate(&ir, 11, false);
+                let jit = BaseJitCompiler::<C>::create(code, lvl).unwrap();
+                let _ = BcInterpreter::<C>::create(code, lvl).unwrap();
+                let _ = IrInterpreter::<C>::create(code, lvl).unwrap();
+                let _ = InplaceInterpreter::<C>::create(code, lvl).unwrap();
+                let mc = mask_mc(jit.print_mc(false, true));
+                let mcl = mask_mc(jit.print_mc(true, true));
+                let mcu = mask_mc(jit.print_mc(false, false));
+                v.push(format!(
+                    "{:016x}.{:016x}.{:016x}.{:016x}.{:016x}.{:016x}",
+                    fnv(format!("{ir:?}").as_bytes()),
+                    fnv(format!("{bc:?}").as_bytes()),
+                    fnv(format!("{bcj:?}").as_bytes()),
+                    fnv(&mc),
+                    fnv(&mcl),
+                    fnv(&mcu)
+                ));
+                let _ = round;
+            }
+            v
+        });
+        match res {
+            Ok(v) => {
+                if v[0] != v[1] {
+                    problems.push(format!("O{lvl}:second-compilation-differs"));
+                }
+                hashes.push(v[0].clone());
+            }
+            Err(_) => problems.push(format!("O{lvl}:PANIC-while-compiling")),
+        }
+        if run_it && problems.is_empty() {
+            macro_rules! reuse {
+                ($name:expr, $ty:ident) => {{
+                    let exec = $ty::<C>::create(code, lvl).unwrap();
+                    let a = run_exec::<C>(&exec, env, &Mode::Limited(5000));
+                    let b = run_exec::<C>(&exec, env, &Mode::Limited(5000));
+                    let c = run_exec::<C>(&exec, env, &Mode::Limited(5000));
+                    if (a.tag.clone(), a.trace.clone()) != (b.tag.clone(), b.trace.clone()) || (a.tag, a.trace) != (c.tag, c.trace) {
+                        problems.push(format!("{}/O{lvl}:repeated-execution-differs", $name));
+                    }
+                }};
+            }
+            reuse!("irint", IrInterpreter);
+            reuse!("bcint", BcInterpreter);
+            reuse!("basejit", BaseJitCompiler);
+        }
+    }
+    let imp = if problems.is_empty() {
+        "ok".to_string()
+    } else {
+        format!("FAIL w={w} code={} {}", hex(code.as_bytes()), problems.join(" "))
+    };
+    out.case("const ok", &imp);
+    // second channel: the hashes, compared across two processes by the check
+    out.side.push(format!("{w} {} {}", hex(code.as_bytes()), hashes.join(" ")));
+}
+
+/// Compilation is total (no panic), deterministic within the process, and executors are reusable.
+pub fn c13(r: &mut Rng, count: usize, out: &mut Out) {
+    let prev = std::panic::take_hook();
+    std::panic::set_hook(Box::new(|_| {}));
+    for i in 0..count {
+        let (code, run_it) = match i % 6 {
+            5 => {
+                out.stat("gen_deep");
+                (gen::deep(r), true)
+            }
+            4 => {
+                out.stat("gen_divergent");
+                (gen::maybe_divergent(r), true)
+            }
+            _ => (random_program(r, out), true),
+        };
+        let env = random_env(r);
+        let w = *r.pick(&WIDTHS);
+        out.mark(&format!("c13 w={w} code={code:?}"));
+        with_width!(w, c13_case, w, &code, &env, run_it, out);
+    }
+    std::panic::set_hook(prev);
+}
+
+// ---------------------------------------------------------------------------------------- jitgen
+
+/// `jitgen <w> <limited 0/1> <safe 0/1> <bytecode...>`: machine code of the baseline JIT for the given
+/// bytecode (addresses of the runtime shims masked), or `panic` if the selector has no arm for a form.
+fn jitgen_exec<C: CellType>(t: &[&str]) -> String {
+    let prog = match decode_bc::<C>(&t[4..]) {
+        Some(p) => p,
+        None => return "bad-request".to_string(),
+    };
+    let lim = t[2] == "1";
+    let safe = t[3] == "1";
+    let res = std::panic::catch_unwind(std::panic::AssertUnwindSafe(move || {
+        let jit = BaseJitCompiler::<C>::verif_from_bc(prog);
+        mask_mc(jit.print_mc(lim, safe))
+    }));
+    match res {
+        Ok(mc) => hex(&mc),
+        Err(_) => "panic".to_string(),
+    }
+}
+
+pub fn exec_jitgen(t: &[&str]) -> String {
+    if t.len() < 5 {
+        return "bad-request".to_string();
+    }
+    match t[1] {
+        "8" => jitgen_exec::<u8>(t),
+        "16" => jitgen_exec::<u16>(t),
+        "32" => jitgen_exec::<u32>(t),
+        "64" => jitgen_exec::<u64>(t),
+        _ => "bad-request".to_string(),
+    }
+}
+
+/// All operand-kind combinations the instruction selector distinguishes, as one-instruction programs.
+fn jit_forms(w: u32, out: &mut Out) {
+    let big: u64 = if w == 64 { 0x1_2345_6789 } else { (1u64 << (w - 1)) + 3 };
+    let neg_small: u64 = if w == 64 { u64::MAX - 4 } else { (1u64 << w) - 5 };
+    let dsts = ["m0", "m3", "m-2", "t0", "t4", "t10", "t11", "t13"];
+    let srcs = ["m0", "m3", "m-2", "m7", "t0", "t4", "t5", "t10", "t11", "t12", "t13", "i0", "i1", "i7"];
+    let mut srcs: Vec<String> = srcs.iter().map(|s| s.to_string()).collect();
+    srcs.push(format!("i{big}"));
+    srcs.push(format!("i{neg_small}"));
+    let lives = [0u32, 0x7ff, 0x011, 0x410, 0x001];
+    let emit = |out: &mut Out, body: String, live: u32| {
+        for &(lim, safe) in &[(0, 1)] {
+            let req = format!("jitgen {w} {lim} {safe} P:16:-4:8 {body}@{live}");
+            let t: Vec<&str> = req.split_whitespace().collect();
+            let imp = exec_jitgen(&t);
+            out.case(&req, &imp);
+        }
+    };
+    for op in ["add", "sub", "mul"] {
+        for d in dsts {
+            for a in &srcs {
+                for b in &srcs {
+                    for &live in &lives {
+                        emit(out, format!("{op}:{d}:{a}:{b}"), live);
+                    }
+                }
+            }
+        }
+    }
+    for d in dsts {
+        for a in &srcs {
+            for &live in &lives {
+                emit(out, format!("copy:{d}:{a}"), live);
+            }
+        }
+    }
+    for body in ["noop", "mov:3", "mov:-2", "mov:0", "mov:100000", "inp:0", "inp:-2", "out:3", "out:0", "brz:0:1", "brnz:2:0", "brz:-1:0"] {
+        for &live in &lives {
+            for &(lim, safe) in &[(0, 1), (1, 1), (0, 0), (1, 0)] {
+                let req = format!("jitgen {w} {lim} {safe} P:16:-4:8 {body}@{live}");
+                let t: Vec<&str> = req.split_whitespace().collect();
+                let imp = exec_jitgen(&t);
+                out.case(&req, &imp);
+            }
+        }
+    }
+    out.stat("forms_enumerated");
+}
+
+fn jitgen_case<C: CellType>(w: u32, code: &str, out: &mut Out) {
+    for &lvl in &[0u32, 1, 2, 3] {
+        let ir = match ir::Program::<C>::parse(code) {
+            Ok(p) => p.optimize(lvl),
+            Err(_) => return,
+        };
+        let bc = hpbf::bc::CodeGen::translate(&ir, 11, false);
+        let text = encode_bc(&bc);
+        for &(lim, safe) in &[(0, 1), (1, 1), (0, 0)] {
+            let req = format!("jitgen {w} {lim} {safe} {text}");
+            let t: Vec<&str> = req.split_whitespace().collect();
+            let imp = exec_jitgen(&t);
+            out.case(&req, &imp);
+        }
+    }
+}
+
+/// Exact tie of the JIT's code generation: selector forms exhaustively (count = 0 gives only the
+/// forms), then the bytecode of generated programs.
+pub fn jitgen(r: &mut Rng, count: usize, out: &mut Out) {
+    let prev = std::panic::take_hook();
+    std::panic::set_hook(Box::new(|_| {}));
+    for &w in &WIDTHS {
+        jit_forms(w, out);
+    }
+    for _ in 0..count {
+        let code = random_program(r, out);
+        let w = *r.pick(&WIDTHS);
+        with_width!(w, jitgen_case, w, &code, out);
+    }
+    std::panic::set_hook(prev);
 }
